@@ -133,3 +133,31 @@ def register(reg):
         # the code tests truthiness)
         raises={"AssertionError": "old(headers_set) is not None and len(old(headers_set)) > 0"},
     )
+    _register_model_premises(reg)
+
+
+def _register_model_premises(reg):
+    """premise of the BufferedSource model (rfile.read(n) blocks until n bytes or end of stream; DechunkedInput.readinto's
+    `len(data) != n` test and every Content-Length read rest on it): the handler's rfile is the BUFFERED reader that
+    socketserver.StreamRequestHandler creates by default (rbufsize = -1).  Checked on the class: neither the handler nor a
+    base class inside werkzeug overrides rbufsize / setup() / rfile."""
+    import ast
+    from pyvc.extract import ModuleInfo, ClassInfo
+
+    @reg.table("C19", "request-handler-reads-through-a-buffered-rfile")
+    def _rbuf():
+        cls = ModuleInfo.get("werkzeug/serving.py").classes["WSGIRequestHandler"]
+        res = []
+        for k in cls.mro():
+            if not isinstance(k, ClassInfo):
+                continue
+            rb = k.attrs.get("rbufsize")
+            ok = rb is None or (isinstance(rb, ast.Constant) and isinstance(rb.value, int) and (rb.value == -1 or rb.value > 1))
+            res.append((f"{k.name}/rbufsize", ok, f"rbufsize = {ast.unparse(rb) if rb is not None else '<inherited: -1>'}"))
+            res.append((f"{k.name}/no-setup-override", "setup" not in k.methods, f"methods: {sorted(m for m in k.methods if m in ('setup', 'finish'))}"))
+            assigns = [n for fns in k.methods.values() for n in ast.walk(fns[-1])
+                       if isinstance(n, (ast.Assign, ast.AnnAssign)) and any(
+                           isinstance(t, ast.Attribute) and t.attr == "rfile" and isinstance(t.value, ast.Name) and t.value.id == "self"
+                           for t in (n.targets if isinstance(n, ast.Assign) else [n.target]))]
+            res.append((f"{k.name}/rfile-not-rebound", not assigns, f"assignments to self.rfile at lines {[a.lineno for a in assigns]}"))
+        return res
